@@ -291,7 +291,13 @@ impl WriteAheadLog {
     }
 
     async fn sync_current(&mut self) -> Result<()> {
-        self.file.sync_data().await.map_err(map_io_error)?;
+        if let Err(e) = self.file.sync_data().await {
+            // A failed fsync is reported once and the kernel marks the dirty pages clean:
+            // a later, successful fsync of this file does not make them durable. Never
+            // append behind them - entries after a lost one are unreachable for the reader.
+            self.needs_rotation = true;
+            return Err(map_io_error(e));
+        }
         self.last_sync = Instant::now();
         Ok(())
     }
